@@ -270,6 +270,16 @@ def check_reversal(idx, run):
               "without parentheses: `do i = m1+1, n, 3` gives "
               "MOD(n - m1 + 1, 3) instead of MOD(n - (m1 + 1), 3)",
               loc(mod, loop))
+    # a loop that does not execute has an adjoint that does not execute
+    zfacts = ("IfBlock.create", "MAX", "trip_count", "zero_trip", "MIN(")
+    run.check(
+        "C19.R2", any(f in ast.unparse(loop) for f in zfacts),
+        "AdjointVisitor.loop_node",
+        "a zero-trip loop with a non-unit step stays zero-trip",
+        "the reversed loop starts at hi - MOD(hi - lo, step) whatever the "
+        "sign of hi - lo: `do i = 3, 2, 2` (no iteration) becomes "
+        "`do i = 2 - MOD(2 - 3, 2), 3, -2`, i.e. 3, 3, -2, which executes "
+        "once", loc(mod, loop))
     run.check("C19.R2", "self._visit(node.children[3])" in ltxt,
               "AdjointVisitor.loop_node", "the loop body is transposed",
               "the body of an active loop is not transposed", loc(mod, loop))
